@@ -34,10 +34,17 @@ ComplCase(ev, root) == /\ ev.ast.op \in {"==", "!="}
                        /\ Len(Vals(ev.ast.l, ev.elem, root)) = 1
                        /\ Len(Vals(ev.ast.r, ev.elem, root)) = 1
 
+\* Reflected operands (event field flv: the container members of the element are Go structs, fixed-size arrays, typed slices,
+\* pointers; the abstract element is the same object / list).  ALLOW: the statement and the operator documentation speak of
+\* JSON-like data; for reflected containers only totality (no panic) and the comparison operators on plain operands are
+\* demanded (containers are simply unequal, never ordered); length / empty / in / has ... on them are not judged.
+Flavoured(ev) == "flv" \in DOMAIN ev
+JudgedFlavoured(ev) == ev.ast.op \in {"==", "!=", "<", ">", "<=", ">="} /\ Leaf(ev.ast.l) /\ Leaf(ev.ast.r)
 KindOfBad(ev, g) ==
     LET root == RootFor(ev, g.rt)
         exp  == Expect(ev.ast, ev.elem, root) IN
     IF g.r = 2 THEN "panic"
+    ELSE IF Flavoured(ev) /\ ~JudgedFlavoured(ev) THEN "ok"
     ELSE IF g.r = 3 THEN "ok"      \* the harness' own text form did not parse: not an evaluation, nothing to judge (counted by the pipeline)
     ELSE IF (exp = "T" /\ g.r = 0) \/ (exp = "F" /\ g.r = 1) THEN "wrong-value"
     ELSE IF exp = "ANY" /\ g.d \in {0, 1} /\ g.d = g.r /\ ComplCase(ev, root) THEN "not-complement"
